@@ -191,7 +191,7 @@ deriving DecidableEq, Repr
 def newWindow (len : Nat) (w step : Int) (strict : Bool) : Wnd :=
   { w := w, s := step, l := len, r := len, n := 0, strict := strict, done := len = 0 }
 
-def isPresent (v : List Val) (i : Nat) : Bool := (v.getD i none).isSome
+def isPresent {α : Type} (v : List (Option α)) (i : Nat) : Bool := (v.getD i none).isSome
 def tAt (t : List Int) (i : Nat) : Int := t.getD i 0
 
 /-- the condition evaluated inside the left-boundary loop -/
@@ -199,7 +199,7 @@ def wideEnough (t : List Int) (wd : Wnd) (r l : Nat) : Bool :=
   decide (wd.w ≤ tAt t r - tAt t l + wd.s) || (wd.strict && decide (wd.w < tAt t r - tAt t (l - 1) + wd.s))
 
 /-- `for !found && 0 < l { found = …; if found {break}; l--; if !NaN(v[l]) {n++} }` → (l, n, found) -/
-def searchLeft (t : List Int) (v : List Val) (wd : Wnd) (r : Nat) : Nat → Nat → Nat × Nat × Bool
+def searchLeft {α : Type} (t : List Int) (v : List (Option α)) (wd : Wnd) (r : Nat) : Nat → Nat → Nat × Nat × Bool
   | 0, n => (0, n, false)
   | l + 1, n =>
     if wideEnough t wd r (l + 1) then (l + 1, n, true)
@@ -209,7 +209,7 @@ def searchLeft (t : List Int) (v : List Val) (wd : Wnd) (r : Nat) : Nat → Nat 
 def leftStart (wd : Wnd) (r : Nat) : Nat := if wd.l > r then r else wd.l
 
 /-- the count of present points the search starts with -/
-def countStart (v : List Val) (wd : Wnd) (r : Nat) : Nat :=
+def countStart {α : Type} (v : List (Option α)) (wd : Wnd) (r : Nat) : Nat :=
   if wd.l > r then (if !isPresent v r || (wd.strict && decide (wd.w < wd.s)) then 0 else 1)
   else (if 0 < wd.n && isPresent v wd.r then wd.n - 1 else wd.n)
 
@@ -221,7 +221,7 @@ def finishMove (t : List Int) (wd : Wnd) (r l n : Nat) (found : Bool) : Option W
     some { wd with l := l, r := r, n := n, s := tAt t r - tAt t (r - 1) }
 
 /-- window.moveOneLeft; `none` = returned false (the cursor fields l, r, n keep their previous values) -/
-def moveOneLeft (t : List Int) (v : List Val) (wd : Wnd) : Option Wnd :=
+def moveOneLeft {α : Type} (t : List Int) (v : List (Option α)) (wd : Wnd) : Option Wnd :=
   if wd.done then none else
   let r := wd.r - 1
   let l0 := leftStart wd r
@@ -230,7 +230,7 @@ def moveOneLeft (t : List Int) (v : List Val) (wd : Wnd) : Option Wnd :=
   finishMove t wd r res.1 res.2.1 res.2.2
 
 /-- window.setValueAtRight -/
-def setRight (v : List Val) (wd : Wnd) (x : Val) : List Val × Wnd :=
+def setRight {α : Type} (v : List (Option α)) (wd : Wnd) (x : Option α) : List (Option α) × Wnd :=
   let was := !isPresent v wd.r
   let isn := x.isNone
   let n := if was && !isn then wd.n + 1 else if !was && isn then wd.n - 1 else wd.n
@@ -260,10 +260,10 @@ def otApply (f : OtFn) (s : List Val) : Val :=
   | .stddev => some (sqrtExact (varOf (present s)))
   | .last => lastPresent s
 
-def slice (v : List Val) (l r : Nat) : List Val := (v.drop l).take (r + 1 - l)
+def slice {α : Type} (v : List α) (l r : Nat) : List α := (v.drop l).take (r + 1 - l)
 
 /-- the loop of overTimeCall / funcQuantileOverTime: `fuel` bounds the number of moves by len+1 -/
-def otLoop (t : List Int) (fn : List Val → Val) (nilV : Val) : Nat → List Val → Wnd → List Val × Wnd
+def otLoop {α : Type} (t : List Int) (fn : List (Option α) → Option α) (nilV : Option α) : Nat → List (Option α) → Wnd → List (Option α) × Wnd
   | 0, v, wd => (v, wd)
   | fuel + 1, v, wd =>
     match moveOneLeft t v wd with
@@ -274,10 +274,10 @@ def otLoop (t : List Int) (fn : List Val → Val) (nilV : Val) : Nat → List Va
       otLoop t fn nilV fuel v' wd''
 
 /-- fillPrefixWith(NilValue) -/
-def fillPrefix (v : List Val) (r : Nat) : List Val :=
+def fillPrefix {α : Type} (v : List (Option α)) (r : Nat) : List (Option α) :=
   (List.range v.length).map (fun i => if i < r then none else v.getD i none)
 
-def overTimeWith (t : List Int) (range lodStep : Int) (strict : Bool) (fn : List Val → Val) (nilV : Val) (v : List Val) : List Val :=
+def overTimeWith {α : Type} (t : List Int) (range lodStep : Int) (strict : Bool) (fn : List (Option α) → Option α) (nilV : Option α) (v : List (Option α)) : List (Option α) :=
   let res := otLoop t fn nilV (v.length + 1) v (newWindow t.length range lodStep strict)
   fillPrefix res.1 res.2.r
 
@@ -667,5 +667,177 @@ def execE (cfg : Cfg) (st : Store) (ts : TS) (e : Expr) : Option (List Series) :
   (evalE cfg st ts e []).map (fun ss =>
     let ss := if ts.viewStart = ts.viewEnd then ss else ss.filter (hasPresentInView ts)
     ss.map (fun s => { s with vals := s.vals.drop ts.startX }))
+
+/-! ## extended reals: ±Inf are points, only NaN is "no point"
+
+  float64 points can be infinite (division by zero, overflow, quantile with q outside [0,1]); the operators must treat them
+  as present points.  `ERat` = −∞ | finite | +∞; a missing point is `none` and NEVER one of these values.  Arithmetic whose
+  float result is NaN (∞ − ∞, ∞ · 0) yields `none`: downstream that NaN is a missing point.  This layer models the
+  operators on such columns (harness stream `xeval`: one operator over `(m + 0)` times 2^1008 / divided by 0 / …).
+  Variants: `eMaxSentinel` = seeded/C27-r5-1 (−∞ as "nothing seen yet"); `eMinOverTimeOld` / `eMaxOverTimeOld` and
+  `eInterpOld` = the tree before fixes/C27-infinite-points.diff (±MaxFloat64 start values; v1·w1 + v2·w2 with a zero weight). -/
+
+inductive ERat | ninf | fin (q : Rat) | pinf
+deriving DecidableEq, Repr
+
+abbrev EVal := Option ERat
+
+def ERat.lt : ERat → ERat → Bool
+  | .ninf, .ninf => false
+  | .ninf, _ => true
+  | .fin _, .ninf => false
+  | .fin a, .fin b => decide (a < b)
+  | .fin _, .pinf => true
+  | .pinf, _ => false
+
+def ERat.le (a b : ERat) : Bool := !(ERat.lt b a)
+
+/-- float addition; `none` = NaN -/
+def ERat.add : ERat → ERat → EVal
+  | .fin a, .fin b => some (.fin (a + b))
+  | .pinf, .ninf => none
+  | .ninf, .pinf => none
+  | .pinf, _ => some .pinf
+  | _, .pinf => some .pinf
+  | .ninf, _ => some .ninf
+  | _, .ninf => some .ninf
+
+def EVal.add (a b : EVal) : EVal :=
+  match a, b with
+  | some x, some y => ERat.add x y
+  | _, _ => none
+
+/-- multiplication by a finite weight w ≥ 0 (∞ · 0 = NaN) -/
+def ERat.mulW (a : ERat) (w : Rat) : EVal :=
+  match a with
+  | .fin x => some (.fin (x * w))
+  | .pinf => if w = 0 then none else some .pinf
+  | .ninf => if w = 0 then none else some .ninf
+
+/-- division by a positive count -/
+def ERat.divN (a : ERat) (n : Nat) : ERat :=
+  match a with
+  | .fin x => .fin (x / (n : Rat))
+  | e => e
+
+def epresent (col : List EVal) : List ERat := col.filterMap id
+
+/-- funcMax (HEAD): `if nan || res < v {res = v}` -/
+def eMaxStep (acc : EVal) (v : EVal) : EVal :=
+  match v, acc with
+  | none, a => a
+  | some x, none => some x
+  | some x, some r => if ERat.lt r x then some x else some r
+def eMax (col : List EVal) : EVal := col.foldl eMaxStep none
+
+/-- funcMin (HEAD) -/
+def eMinStep (acc : EVal) (v : EVal) : EVal :=
+  match v, acc with
+  | none, a => a
+  | some x, none => some x
+  | some x, some r => if ERat.lt x r then some x else some r
+def eMin (col : List EVal) : EVal := col.foldl eMinStep none
+
+/-- seeded/C27-r5-1: start from −∞, compare (`res < v` is false for NaN), and afterwards read −∞ as "no point" -/
+def eMaxSentinel (col : List EVal) : EVal :=
+  let res := col.foldl (fun (r : ERat) v => match v with | some x => if ERat.lt r x then x else r | none => r) .ninf
+  if res = .ninf then none else some res
+
+/-- funcSum: `if nan {res = v; nan = false} else {res += v}`; state none = nothing seen yet -/
+def eSumStep (st : Option EVal) (v : EVal) : Option EVal :=
+  match v, st with
+  | none, s => s
+  | some x, none => some (some x)
+  | some x, some r => some (EVal.add r (some x))
+def eSum (col : List EVal) : EVal := (col.foldl eSumStep none).getD none
+
+def eAcc (l : List ERat) : EVal := l.foldl (fun acc x => EVal.add acc (some x)) (some (.fin 0))
+
+/-- funcAvg / funcAvgOverTime: `res += v; cnt++`, then res / cnt -/
+def eAvg (col : List EVal) : EVal :=
+  if (epresent col).length = 0 then none else (eAcc (epresent col)).map (fun e => e.divN (epresent col).length)
+
+def eCount (col : List EVal) : EVal := some (.fin ((epresent col).length : Rat))
+def eGroup (col : List EVal) : EVal := if (epresent col).length = 0 then none else some (.fin 1)
+
+def eInsert (x : ERat) : List ERat → List ERat
+  | [] => [x]
+  | y :: ys => if ERat.le x y then x :: y :: ys else y :: eInsert x ys
+def eSort (l : List ERat) : List ERat := l.foldr eInsert []
+
+/-- `interpolate` of the fixed tree: a point with zero weight does not take part -/
+def eInterp (x1 : ERat) (w1 : Rat) (x2 : ERat) (w2 : Rat) : EVal :=
+  if w2 = 0 then some x1 else if w1 = 0 then some x2 else EVal.add (x1.mulW w1) (x2.mulW w2)
+/-- before fixes/C27-infinite-points.diff: v1·w1 + v2·w2 unconditionally -/
+def eInterpOld (x1 : ERat) (w1 : Rat) (x2 : ERat) (w2 : Rat) : EVal := EVal.add (x1.mulW w1) (x2.mulW w2)
+
+def eQuantileSortedWith (interp : ERat → Rat → ERat → Rat → EVal) (q : Rat) (xs : List ERat) : EVal :=
+  if xs.length = 0 then none else
+  let ix : Rat := q * ((xs.length : Rat) - 1)
+  let i1 : Nat := ix.floor.toNat
+  let i2 : Nat := min (xs.length - 1) (i1 + 1)
+  let w1 : Rat := (i2 : Rat) - ix
+  let w2 : Rat := 1 - w1
+  interp (xs.getD i1 (.fin 0)) w1 (xs.getD i2 (.fin 0)) w2
+def eQuantile (q : Rat) (col : List EVal) : EVal := eQuantileSortedWith eInterp q (eSort (epresent col))
+def eQuantileOld (q : Rat) (col : List EVal) : EVal := eQuantileSortedWith eInterpOld q (eSort (epresent col))
+
+/-- math.MaxFloat64 -/
+def maxFloat64 : Rat := ((2 ^ 1024 - 2 ^ 971 : Nat) : Rat)
+
+/-- funcMinOverTime / funcMaxOverTime before the fix: ±MaxFloat64 as the start value -/
+def eMinOverTimeOld (s : List EVal) : EVal :=
+  if (epresent s).length = 0 then none
+  else some ((epresent s).foldl (fun r x => if ERat.lt x r then x else r) (.fin maxFloat64))
+def eMaxOverTimeOld (s : List EVal) : EVal :=
+  if (epresent s).length = 0 then none
+  else some ((epresent s).foldl (fun r x => if ERat.lt r x then x else r) (.fin (-maxFloat64)))
+
+def eSumOverTime (s : List EVal) : EVal := if (epresent s).length = 0 then none else eAcc (epresent s)
+
+inductive EOp | max | min | sum | avg | count | group | quantile (q : Rat)
+  | otMax (r : Int) | otMin (r : Int) | otSum (r : Int) | otAvg (r : Int) | otCount (r : Int) | otLast (r : Int) | otQuantile (q : Rat) (r : Int)
+deriving Repr
+
+structure ESeries where
+  tags : Tags
+  vals : List EVal
+deriving DecidableEq, Repr
+
+def eColumns (n : Nat) (ss : List ESeries) : List (List EVal) :=
+  (List.range n).map (fun i => ss.map (fun s => s.vals.getD i none))
+
+def eAggregate (n : Nat) (f : List EVal → EVal) (without : Bool) (labels : List Nat) (ss : List ESeries) : List ESeries :=
+  (dedupKeys (ss.map (fun s => keyOf without labels s.tags))).map (fun k =>
+    { tags := k, vals := (eColumns n (ss.filter (fun s => keyOf without labels s.tags = k))).map f })
+
+def eOverTime (ts : TS) (r : Int) (strict : Bool) (fn : List EVal → EVal) (nilV : EVal) (ss : List ESeries) : List ESeries :=
+  ss.map (fun s => { s with vals := overTimeWith ts.times r ts.lodStep strict fn nilV s.vals })
+
+/-- one operator of functions.go (fixed tree) on series with possibly infinite points -/
+def eApply (ts : TS) (op : EOp) (without : Bool) (labels : List Nat) (ss : List ESeries) : List ESeries :=
+  let n := ts.times.length
+  match op with
+  | .max => eAggregate n eMax without labels ss
+  | .min => eAggregate n eMin without labels ss
+  | .sum => eAggregate n eSum without labels ss
+  | .avg => eAggregate n eAvg without labels ss
+  | .count => eAggregate n eCount without labels ss
+  | .group => eAggregate n eGroup without labels ss
+  | .quantile q => eAggregate n (eQuantile q) without labels ss
+  | .otMax r => eOverTime ts r false eMax none ss
+  | .otMin r => eOverTime ts r false eMin none ss
+  | .otSum r => eOverTime ts r true eSumOverTime none ss
+  | .otAvg r => eOverTime ts r false eAvg none ss
+  | .otCount r => eOverTime ts r true eCount (some (.fin 0)) ss
+  | .otLast r => eOverTime ts r false (fun s => (epresent s).getLast?) none ss
+  | .otQuantile q r => eOverTime ts r true (eQuantile q) none ss
+
+/-- evaluator.exec on the result -/
+def eExec (ts : TS) (op : EOp) (without : Bool) (labels : List Nat) (ss : List ESeries) : List ESeries :=
+  let out := eApply ts op without labels ss
+  let out := if ts.viewStart = ts.viewEnd then out
+    else out.filter (fun s => (epresent ((s.vals.take ts.viewEnd).drop ts.viewStart)).length ≠ 0)
+  out.map (fun s => { s with vals := s.vals.drop ts.startX })
 
 end SH.PromEval
